@@ -270,7 +270,7 @@ func scriptNoise(t *rapid.T, spec Spec, cfg GenCfg) *script {
 
 // scriptFan: one account escrows the same denomination on several routes of one chain; some of
 // the packets come back refunded, some are delivered and partly returned.
-func scriptFan(t *rapid.T, spec Spec) *script {
+func scriptFan(t *rapid.T, spec Spec, cfg GenCfg) *script {
 	sc := &script{}
 	n := spec.Chains
 	c := rapid.IntRange(0, n-1).Draw(t, "fanchain")
@@ -293,6 +293,10 @@ func scriptFan(t *rapid.T, spec Spec) *script {
 			op.TT = rapid.IntRange(5, 30).Draw(t, "fantt")
 		}
 		ti := sc.add(op, -1)
+		if cfg.Donate && rapid.IntRange(0, 2).Draw(t, "fandonate") == 0 {
+			// a plain bank send into one of the chain's escrow accounts: bank balance > tracked escrow
+			sc.add(Op{K: "donate", C: c, L: rapid.IntRange(0, 5).Draw(t, "fdl"), S: rapid.IntRange(0, NAcct-1).Draw(t, "fds"), Pref: 3, Amt: rapid.Int64Range(1, 500).Draw(t, "fdamt")}, -1)
+		}
 		switch fate {
 		case 1:
 			sc.add(Op{K: "time", N: 90}, -1)
@@ -509,7 +513,7 @@ func GenHistory(t *rapid.T, cfg GenCfg) History {
 		case "fail":
 			scripts = append(scripts, scriptFail(t, h.Spec))
 		case "fan":
-			scripts = append(scripts, scriptFan(t, h.Spec))
+			scripts = append(scripts, scriptFan(t, h.Spec, cfg))
 		default:
 			scripts = append(scripts, scriptNoise(t, h.Spec, cfg))
 		}
